@@ -109,6 +109,9 @@ Proof. vm_compute. reflexivity. Qed.
 Lemma captured_hold : captured_ok captured_accesses = true.
 Proof. vm_compute. reflexivity. Qed.
 
+Lemma single_owner_holds : single_owner_ok run_starts = true.
+Proof. vm_compute. reflexivity. Qed.
+
 (* the discipline is not vacuous on traces, and an undisciplined access is a race *)
 Example disciplined_trace :
   let tr := [Acq 1 0; Acc 1 7 true; Rel 1 0; Acq 2 0; Acc 2 7 false; Rel 2 0] in
